@@ -311,6 +311,8 @@ class TrainSim(Sim):
                     m.eval()        # ... of some layers only: the root flag no longer tells the mode of the tree
             elif kn["callbacks"] == "grow":
                 sim._grow(st, loader, "train")
+            # (what the loader itself reports after the callback: how a DataLoader reacts to its data being swapped is C18's matter)
+            st.cur["train"] = len(loader)
             st.trace[-1]["n_batches"] = st.cur["train"]
 
         def on_val(model, loader):
@@ -322,6 +324,7 @@ class TrainSim(Sim):
                     m.train()
             elif kn["callbacks"] == "grow" and st.cur["val"]:
                 sim._grow(st, loader, "val")
+            st.cur["val"] = len(loader)
             st.trace[-1]["n_batches"] = st.cur["val"]
         if kn["callbacks"] == "none" and not (fault and fault["where"] == "callback"):
             return None, None
